@@ -409,14 +409,13 @@ impl Sim {
             if let Poll::Ready(v) = fut.as_mut().poll(&mut cx) {
                 return Some(v);
             }
-            if !self.advance() {
-                return None;
-            }
-            // a blocked future with an already expired sleep and no progress: give it a few
-            // polls (sleeps created during the poll have later deadlines), then give up
-            if self.now_ns() == before {
+            let advanced = self.advance();
+            // a blocked future with no pending sleep (or an already expired one) and no progress:
+            // give it a few more polls (flags set during the last poll are seen by the next
+            // one), then give up
+            if !advanced || self.now_ns() == before {
                 idle += 1;
-                if idle > 1000 {
+                if idle > 8 {
                     return None;
                 }
             } else {
